@@ -3150,7 +3150,9 @@ rfbProcessClientNormalMessage(rfbClientPtr cl)
             iterator = rfbGetClientIterator(cl->screen);
             while ((clp = rfbClientIteratorNext(iterator)) != NULL) {
                 LOCK(clp->updateMutex);
-                if (clp != cl)
+                /* a client that is still waiting for the answer to its own request keeps it */
+                if (clp != cl &&
+                    clp->requestedDesktopSizeChange != rfbExtDesktopSize_ClientRequestedChange)
                     clp->requestedDesktopSizeChange = rfbExtDesktopSize_OtherClientRequestedChange;
                 UNLOCK(clp->updateMutex);
             }
